@@ -59,7 +59,7 @@ def spaces(tier):
         for n in (5, 6, 7):
             out.append(cs.db_space(n, cs.COMBOS[n % 4], 0, binary=True))
         for n in (2, 3):
-            out.append(cs.db_space(n, cs.COMBOS[n % 4], 1, cli=True))
+            out.append(cs.db_space(n, cs.COMBOS[n % 2], 1, cli=True))
     else:
         out += [cs.fn_space(L) for L in range(2, 12) if fn_ok]
         for n in (2, 3, 4, 5):
@@ -69,7 +69,7 @@ def spaces(tier):
         for n in (5, 6, 7, 8, 9):
             out.append(cs.db_space(n, cs.COMBOS[n % 4], 0, binary=True))
         for n in (2, 3, 4):
-            out.append(cs.db_space(n, cs.COMBOS[n % 4], 2, cli=True))
+            out.append(cs.db_space(n, cs.COMBOS[n % 2], 2, cli=True))
     for combo in cs.COMBOS[2:4]:
         out.append(cs.db_space(4, combo, 0, base_level=-171.6))
     for combo in cs.EXTREME:
